@@ -1573,7 +1573,9 @@ def run(ck):
         "scenarios, whose stop handlers raise RuntimeError only because a handler abort happens before any racing region); bind / connect "
         "faults are OSError / ConnectionRefusedError; the model distinguishes Exception-like from BaseException-only exactly where the code's "
         "handlers do (the `except Exception` around stop handlers)",
-        "OS-level release of sockets is observed on the fake network only",
+        "OS-level release of sockets is observed on the fake network, except for ONE bucket of two runs on the REAL loopback stack (a context "
+        "with a fixed tcp_server_port stopped with an established peer connection, server closing first / client first, and restarted at once "
+        "on the same port); port clashes with other jobs on the FIRST bind are retried 3 times with a fresh port and then give no verdict",
     ]
     _preload()
     rng = ck.rng
@@ -1634,6 +1636,7 @@ def run(ck):
     run_conc(ck)
     run_call(ck)
     run_tasks(ck)
+    run_real(ck)
     return ck.finish("seeded random operation+fault histories (length <= 12, both modes) + %d scripted, each under 1-3 random schedules; "
                      "non-trivial = at least one successful make or stop; distinct by (history, schedule); plus concurrent runs (remove / make "
                      "in a second thread racing with stop) under random, PCT and bounded-DFS schedules, all non-trivial" % len(SCRIPTED),
@@ -1889,6 +1892,129 @@ def replay_tasks(c):
     return 1 if bad else 0
 
 
+# ------------------------------------------------------------------------------------------------
+# real loopback sockets (no dsched): restart of a context on its fixed TCP port right after stop
+# ------------------------------------------------------------------------------------------------
+def _real_restart(order):
+    """Runs in a forked child with the REAL threading / socket modules.  order: "server-first" (the server context is stopped
+    while the client is still connected: its side closes first and leaves TIME_WAIT sockets on the port) or "client-first"."""
+    import socket
+    import threading
+    import qmi.core.context as C
+    import qmi.core.rpc as R
+    from qmi.core.thread import QMI_Thread
+    from qmi.core.config_defs import CfgQmi, CfgContext
+    logging.disable(logging.CRITICAL)
+
+    class Obj(R.QMI_RpcObject):
+        @R.rpc_method
+        def ping(self):
+            return 41
+
+    sk = socket.socket(socket.AF_INET, socket.SOCK_STREAM)
+    sk.bind(("127.0.0.1", 0))
+    port = sk.getsockname()[1]
+    sk.close()
+    cfg = CfgQmi(contexts={"c12srv": CfgContext(host="127.0.0.1", tcp_server_port=port)})
+    out = {"order": order, "port": "fixed", "steps": []}
+
+    def round_(tag, first):
+        srv = C.QMI_Context("c12srv", cfg)
+        try:
+            srv.start()
+        except OSError as e:
+            out["steps"].append([tag + ":server-start", "OSError", e.errno])
+            return "clash" if first else "restart-failed"
+        srv.make_rpc_object("o1", Obj)
+        cl = C.QMI_Context("c12cl", CfgQmi())
+        cl.start()
+        cl.connect_to_peer("c12srv", "127.0.0.1:%d" % port)
+        r = cl.get_rpc_object_by_name("c12srv.o1").ping(rpc_timeout=10.0)
+        out["steps"].append([tag + ":call", r])
+        for c in ((srv, cl) if order == "server-first" else (cl, srv)):
+            c.stop()
+        left = sorted(type(t).__name__ for t in threading.enumerate() if isinstance(t, QMI_Thread) and t.is_alive())
+        out["steps"].append([tag + ":threads-left", left])
+        return "ok" if (r == 41 and not left) else "bad"
+    st = round_("first", True)
+    if st == "ok":
+        st = round_("restart", False)          # at once, same configuration, same port
+    out["status"] = st
+    return out
+
+
+def _fork_real(fn, args, wall=40.0):
+    import json as _json
+    import select
+    import signal
+    import time as _time
+    r, w = os.pipe()
+    sys.stdout.flush()
+    pid = os.fork()
+    if pid == 0:
+        os.close(r)
+        try:
+            dn = os.open(os.devnull, os.O_WRONLY)
+            os.dup2(dn, 2)
+            res = fn(*args)
+        except BaseException as e:          # noqa
+            res = {"status": "error", "error": "%s: %s" % (type(e).__name__, e)}
+        os.write(w, _json.dumps(res).encode())
+        os._exit(0)
+    os.close(w)
+    data, t0 = b"", _time.monotonic()
+    while _time.monotonic() - t0 < wall:
+        if select.select([r], [], [], 0.2)[0]:
+            chunk = os.read(r, 1 << 16)
+            if not chunk:
+                break
+            data += chunk
+    os.close(r)
+    try:
+        os.kill(pid, signal.SIGKILL)
+    except OSError:
+        pass
+    os.waitpid(pid, 0)
+    try:
+        return _json.loads(data.decode())
+    except ValueError:
+        return {"status": "hang"}
+
+
+def run_real(ck):
+    """ONE small bucket on the real loopback stack: what the fake network cannot show (TIME_WAIT on the server port)."""
+    for order in ("server-first", "client-first"):
+        res = None
+        for attempt in range(3):               # another job on the machine may take the port between our probe and the bind
+            res = _fork_real(_real_restart, (order,))
+            if res.get("status") != "clash":
+                break
+        ck.note_case(("real-restart", order), True)
+        ck.count("real-restart:%s:%s" % (order, res.get("status")))
+        if res.get("status") == "clash":
+            continue                            # three clashes on the FIRST bind: no verdict from this bucket
+        if res.get("status") == "restart-failed":
+            ck.report("real:restart-refused:%s" % order,
+                      "C12 fails on the implementation (real loopback sockets): a context with a fixed tcp_server_port was stopped (%s: %s) "
+                      "and a NEW context with the same configuration started at once fails to bind its port: %r" % (
+                          order, "the server closed the established peer connection first" if order == "server-first" else "the client disconnected first",
+                          res.get("steps")), {"real_socket": True, "order": order, "steps": res.get("steps")})
+        elif res.get("status") != "ok":
+            ck.report("real:%s:%s" % (res.get("status"), order), "real-socket restart scenario (%s) did not behave: %r" % (order, res),
+                      {"real_socket": True, "order": order, "result": res})
+
+
+def replay_real(c):
+    res = _fork_real(_real_restart, (c["order"],))
+    print("real loopback sockets, order:", c["order"])
+    for st in res.get("steps", []):
+        print("  ", st)
+    print("status:", res.get("status"), res.get("error") or "")
+    print("oracle:", "property holds (restart on the same port succeeded)" if res.get("status") == "ok" else
+          "inconclusive (the port was taken by another job)" if res.get("status") == "clash" else "VIOLATED: " + str(res.get("status")))
+    return 0 if res.get("status") in ("ok", "clash") else 1
+
+
 def replay_conc(c):
     _preload()
     pop = [tuple(x) for x in c["pop"]]
@@ -1915,6 +2041,8 @@ def replay(rep):
         return replay_call(c)
     if c.get("tasks"):
         return replay_tasks(c)
+    if c.get("real_socket"):
+        return replay_real(c)
     _preload()
     ops = [tuple(o) for o in c["ops"]]
     kw = dict(strategy="replay", schedule=list(c["schedule"])) if c.get("schedule") else dict(strategy=c.get("strategy", "random"), seed=c.get("seed", 0))
